@@ -156,6 +156,7 @@ func main() {
 		acc = append(acc, accesses(drv, []string{"LLRPDevice", "Driver"})...)
 		out["accesses"] = acc
 		out["readCmd"] = cmdSwitches(drv)
+		out["keepAlive"] = keepAliveFacts(drv)
 		enc := json.NewEncoder(os.Stdout)
 		enc.SetIndent("", " ")
 		if err := enc.Encode(out); err != nil {
@@ -546,6 +547,80 @@ func structs(p *Pkg) []StructShape {
 
 // ---------------------------------------------------------------- command switches of the driver (C14)
 
+// litType: the struct type named by `&llrp.T{…}` (-> `T`); for `&v` the type of the composite literal that the same case
+// body assigns to v with `v := llrp.T{…}`. Anything else is reported verbatim with a leading `?`.
+func litType(e ast.Expr, body []ast.Stmt) string {
+	if u, ok := e.(*ast.UnaryExpr); ok && u.Op == token.AND {
+		switch x := u.X.(type) {
+		case *ast.CompositeLit:
+			return strings.TrimPrefix(types.ExprString(x.Type), "llrp.")
+		case *ast.Ident:
+			for _, st := range body {
+				if as, ok := st.(*ast.AssignStmt); ok && as.Tok == token.DEFINE && len(as.Lhs) == 1 && len(as.Rhs) == 1 {
+					if id, ok := as.Lhs[0].(*ast.Ident); ok && id.Name == x.Name {
+						if cl, ok := as.Rhs[0].(*ast.CompositeLit); ok {
+							return strings.TrimPrefix(types.ExprString(cl.Type), "llrp.")
+						}
+					}
+				}
+			}
+		}
+	}
+	return "?" + types.ExprString(e)
+}
+
+// keyedFields: `&llrp.EnableROSpec{ROSpecID: roID}` -> `ROSpecID=roID`; several fields joined with `,`
+func keyedFields(e ast.Expr) string {
+	if u, ok := e.(*ast.UnaryExpr); ok {
+		e = u.X
+	}
+	cl, ok := e.(*ast.CompositeLit)
+	if !ok {
+		return ""
+	}
+	var out []string
+	for _, el := range cl.Elts {
+		if kv, ok := el.(*ast.KeyValueExpr); ok {
+			out = append(out, types.ExprString(kv.Key)+"="+types.ExprString(kv.Value))
+		}
+	}
+	return strings.Join(out, ",")
+}
+
+// keepAliveFacts (C14): the argument of llrp.WithTimeout in NewLLRPDevice (text and constant value, ns), the definition of
+// `ka` in TrySend, and the KeepAliveSpec literal of onConnect.
+func keepAliveFacts(p *Pkg) map[string]string {
+	out := map[string]string{}
+	ast.Inspect(findFunc(p, "Driver.NewLLRPDevice").Body, func(n ast.Node) bool {
+		if c, ok := n.(*ast.CallExpr); ok && types.ExprString(c.Fun) == "llrp.WithTimeout" && len(c.Args) == 1 {
+			if _, dup := out["clientTimeoutExpr"]; dup {
+				fail("%s: more than one llrp.WithTimeout in NewLLRPDevice", p.pos(c))
+			}
+			out["clientTimeoutExpr"] = types.ExprString(c.Args[0])
+			if v := p.info.Types[c.Args[0]].Value; v != nil {
+				out["clientTimeoutNs"] = v.ExactString()
+			}
+		}
+		return true
+	})
+	if out["clientTimeoutNs"] == "" {
+		fail("NewLLRPDevice: no llrp.WithTimeout(<constant>) option found")
+	}
+	ast.Inspect(findFunc(p, "LLRPDevice.TrySend").Body, func(n ast.Node) bool {
+		if as, ok := n.(*ast.AssignStmt); ok && len(as.Lhs) == 1 && len(as.Rhs) == 1 && types.ExprString(as.Lhs[0]) == "ka" {
+			out["trySendKA"] = types.ExprString(as.Rhs[0])
+		}
+		return true
+	})
+	ast.Inspect(findFunc(p, "LLRPDevice.onConnect").Body, func(n ast.Node) bool {
+		if cl, ok := n.(*ast.CompositeLit); ok && types.ExprString(cl.Type) == "llrp.KeepAliveSpec" {
+			out["onConnectKA"] = keyedFields(cl)
+		}
+		return true
+	})
+	return out
+}
+
 // cmdSwitches extracts, from handleReadCommands and handleWriteCommands, the case labels (as constant values)
 // and the request/response struct types assigned in each case.
 func cmdSwitches(p *Pkg) map[string][]map[string]string {
@@ -576,19 +651,33 @@ func cmdSwitches(p *Pkg) map[string][]map[string]string {
 						labels = []string{"<default>"}
 					}
 					req, resp := "", ""
+					reqType, respType, idField, dataTarget, usesJSON := "", "", "", "", ""
 					for _, st := range cc.Body {
 						if as, ok := st.(*ast.AssignStmt); ok && len(as.Lhs) == 1 && len(as.Rhs) == 1 {
 							l := types.ExprString(as.Lhs[0])
 							r := types.ExprString(as.Rhs[0])
 							if l == "llrpReq" {
 								req = r
+								reqType = litType(as.Rhs[0], cc.Body)
+								idField = keyedFields(as.Rhs[0])
 							}
 							if l == "llrpResp" {
 								resp = r
+								respType = litType(as.Rhs[0], cc.Body)
+							}
+							if l == "dataTarget" {
+								dataTarget = r
+							}
+							if l == "reqData" {
+								usesJSON = r
 							}
 						}
+						if as, ok := st.(*ast.AssignStmt); ok && len(as.Lhs) == 2 && len(as.Rhs) == 1 && types.ExprString(as.Lhs[0]) == "reqData" {
+							usesJSON = types.ExprString(as.Rhs[0])
+						}
 					}
-					rows = append(rows, map[string]string{"switch": tag, "outer": outer, "labels": strings.Join(labels, "|"), "req": req, "resp": resp})
+					rows = append(rows, map[string]string{"switch": tag, "outer": outer, "labels": strings.Join(labels, "|"), "req": req, "resp": resp,
+						"reqType": reqType, "respType": respType, "fields": idField, "dataTarget": dataTarget, "reqData": usesJSON})
 					for _, st := range cc.Body {
 						walk(st, outer+"/"+strings.Join(labels, "|"))
 					}
